@@ -22,6 +22,8 @@ def ops_for(labels, n, cfg, salt):
     """op list for one labelled cutting of n batches"""
     rng = random.Random(derive_seed("c05-cut", salt, labels))
     sizes = [s["batch_size"] for s in cfg["lineup"]]
+    if cfg["scheduler"]["kind"] == "rl":
+        sizes = [1]          # which sampler runs next is the agent's choice: a crash at the first model call of the batch always lands inside it
     E = cfg["ensemble"]  # noqa: N806
     # segments: (number of batches, label of the boundary that ends it, index of the first batch after it)
     segs = []
@@ -64,7 +66,7 @@ class C05(Check):
             "labelling) with at least one cut")
     assumptions = ["Calibrator, checkpointing, samplers: real code on a real scratch folder; crash = the live object and every reference are "
                    "dropped, ambient RNG state perturbed, only the folder survives; a sample of restores in a truly fresh interpreter is "
-                   "not taken (in-process restore only)", "RL line-ups are outside this property's quantifier (every cut opens a new session)"]
+                   "not taken (in-process restore only)", "RL line-ups take part with a greedy (eps = 0) agent only: with eps > 0 every cut makes the agent draw one more random number for the action it had pending, so equality across cuts is not defined"]
     quick = {"runs": 40, "wall": 150, "item_timeout": 600}
     thorough = {"runs": 3000, "wall": 900, "item_timeout": 1200}
 
@@ -85,17 +87,30 @@ class C05(Check):
             if tier == "thorough" and not costly and rng.random() < 0.3:
                 n = 5
             mode = "all"
+        if rng.random() < 0.15 and mode == "all":
+            # RL scheduler with a greedy agent (eps = 0): its choices are a function of the rewards alone, so cutting the run
+            # into sessions (each cut drops the agent's pending action) must not change anything either
+            cfg["lineup"] = calsim.gen_lineup(rng, n=rng.randint(1, 3), kinds=["uniform", "halton", "rseq", "pso", "bestbatch"], max_bs=3, rl=True)
+            cfg["scheduler"] = {"kind": "rl", "agent": {"kind": "eps", "eps": 0.0, "alpha": rng.choice([-1, 0.1, 0.5]), "init": rng.choice([0.0, 1.0, 0.2])}}
+            n = rng.choice([3, 4])
         scn = {"engine": "calsim", "config": cfg, "env": {"folder": True, "n_jobs": rng.choice([1, 1, 2])}, "n": n, "mode": mode,
                "cut_seed": rng.randrange(2 ** 31), "sim_seed": rng.randrange(2 ** 31), "ops": []}
         feat = calsim.SAMPLER_KINDS[i % len(calsim.SAMPLER_KINDS)]
         if scn["env"]["n_jobs"] == 1 and (feat in ("halton", "rseq", "pso", "cors", "gp") or rng.random() < 0.2):
             scn["fresh"] = True
-            if feat in ("halton", "rseq", "pso", "cors", "gp") and mode == "all":
+            if feat in ("halton", "rseq", "pso", "cors", "gp") and mode == "all" and cfg["scheduler"]["kind"] == "rr":
                 # short line-up so that the featured stateful sampler gets a second turn inside the run: its state then has
                 # to survive a pickle written by one interpreter and read by another
                 keep = [s for s in cfg["lineup"] if s["cls"] == feat][:1]
                 first = cfg["lineup"][0] if cfg["lineup"][0]["cls"] != feat else calsim.gen_sampler_spec(rng, rng.choice(["uniform", "rseq", "halton"]), 2)
-                first["batch_size"] = max(first["batch_size"], max([s["batch_size"] for s in keep] + [1]))
+                first["batch_size"] = max(first["batch_size"], max([s["batch_size"] for s in keep] + [1]), 2 if feat == "gp" else 1)
+                if feat == "gp" and keep:
+                    # enough candidates and history for the two acquisition rules to rank differently
+                    keep[0]["opts"]["candidate_pool_size"] = rng.randint(80, 250)
+                    first["batch_size"] = max(first["batch_size"], 4)
+                    if rng.random() < 0.6:
+                        keep[0]["opts"].pop("acquisition", None)       # constructor default
+                        keep[0]["opts"].pop("jitter", None)
                 cfg["lineup"] = [first] + keep
                 if len(cfg["space"]["precision"]) < 2:
                     cfg["space"] = calsim.gen_space(rng, rng.randint(2, 4))
@@ -143,6 +158,8 @@ class C05(Check):
             res.sample = {"baseline": t["exc"]}
             return res
         want = t["snap"]
+        if cfg["scheduler"]["kind"] == "rl":
+            res.stats["probe:rl-greedy-agent-scenario"] += 1
         cfgkey = jdigest(cfg)[:10]
         for lab in self.labellings(scn):
             if set(lab) <= {"-"}:
